@@ -55,6 +55,17 @@ class KexNistp256:
             "KexECDH asked to handle packet type {:d}".format(ptype)
         )
 
+    def _load_peer_point(self, point_bytes):
+        try:
+            return ec.EllipticCurvePublicKey.from_encoded_point(
+                self.curve, point_bytes
+            )
+        except (ValueError, TypeError) as e:
+            # empty, truncated, unsupported encoding, or not on the curve
+            raise SSHException(
+                "Invalid ECDH public value from peer: {}".format(e)
+            ) from e
+
     def _generate_key_pair(self):
         self.P = ec.generate_private_key(self.curve, default_backend())
         if self.transport.server_mode:
@@ -64,9 +75,7 @@ class KexNistp256:
 
     def _parse_kexecdh_init(self, m):
         Q_C_bytes = m.get_string()
-        self.Q_C = ec.EllipticCurvePublicKey.from_encoded_point(
-            self.curve, Q_C_bytes
-        )
+        self.Q_C = self._load_peer_point(Q_C_bytes)
         K_S = self.transport.get_server_key().asbytes()
         K = self.P.exchange(ec.ECDH(), self.Q_C)
         K = int(hexlify(K), 16)
@@ -110,9 +119,7 @@ class KexNistp256:
     def _parse_kexecdh_reply(self, m):
         K_S = m.get_string()
         Q_S_bytes = m.get_string()
-        self.Q_S = ec.EllipticCurvePublicKey.from_encoded_point(
-            self.curve, Q_S_bytes
-        )
+        self.Q_S = self._load_peer_point(Q_S_bytes)
         sig = m.get_binary()
         K = self.P.exchange(ec.ECDH(), self.Q_S)
         K = int(hexlify(K), 16)
